@@ -427,7 +427,7 @@ def run_case(case, ctx):
                 all_routes(Fxp, mk_lop, fd2, r, o, routes=('resize', 'ctor_sizes', 'like', 'equal', 'set_val', 'setitem'))
                 lop2 = [hi, -1, 0, -rng.randint(1, 7)]
                 all_routes(Fxp, lambda: Fxp(np.array(lop2), fs[0], fs[1], fs[2], raw=True), fd2, r, o, routes=('resize', 'like', 'equal'))
-        if i % 4 == 0 and fs[1] <= 40:
+        if (i // 10) % 4 == 1 and fs[1] <= 40:      # (independent of the mode digit i % 10)
             # a source filled from a list of (unsigned) NumPy scalars under wrap: its codes can be negative, its value dtype unsigned
             m = 1 << fs[1]
             for dt in (np.uint64, np.uint32, np.int16):
